@@ -125,7 +125,9 @@ class _CheckingJacobian(DictionaryJacobian):
         super().__init__(system)
 
     def _setup(self, system):
-        self._subjacs_info = self._subjacs_info.copy()
+        # copy the metadata dicts too, so that what set_col records in them ('uncovered_nz', ...)
+        # belongs to this check only and is not carried over to the next step or the next check.
+        self._subjacs_info = {key: meta.copy() for key, meta in self._subjacs_info.items()}
 
         self._setup_index_maps(system)
         self._subjacs = self._get_subjacs(system)
